@@ -110,8 +110,19 @@ func (p *Path) equalsByte(b Value, c byte) Value {
 // reMatchFrom runs the program at a fixed start position and returns the end of
 // the highest-priority match, or -1.
 func (p *Path) reMatchFrom(prog *syntax.Prog, s []Value, start int) int {
+	e, _ := p.reMatchCaps(prog, s, start)
+	return e
+}
+
+// reMatchCaps is reMatchFrom that also reports the capture positions of the match.
+func (p *Path) reMatchCaps(prog *syntax.Prog, s []Value, start int) (int, []int) {
 	type key struct{ pc, pos int }
 	visited := map[key]bool{}
+	caps := make([]int, prog.NumCap)
+	for i := range caps {
+		caps[i] = -1
+	}
+	var best []int
 	var run func(pc, pos int) int
 	run = func(pc, pos int) int {
 		for {
@@ -122,8 +133,20 @@ func (p *Path) reMatchFrom(prog *syntax.Prog, s []Value, start int) int {
 			case syntax.InstFail:
 				return -1
 			case syntax.InstMatch:
+				best = append([]int(nil), caps...)
 				return pos
-			case syntax.InstNop, syntax.InstCapture:
+			case syntax.InstNop:
+				pc = int(i.Out)
+			case syntax.InstCapture:
+				if int(i.Arg) < len(caps) {
+					old := caps[i.Arg]
+					caps[i.Arg] = pos
+					if r := run(int(i.Out), pos); r >= 0 {
+						return r
+					}
+					caps[i.Arg] = old
+					return -1
+				}
 				pc = int(i.Out)
 			case syntax.InstAlt, syntax.InstAltMatch:
 				if visited[k] {
@@ -177,7 +200,8 @@ func (p *Path) reMatchFrom(prog *syntax.Prog, s []Value, start int) int {
 			}
 		}
 	}
-	return run(prog.Start, start)
+	e := run(prog.Start, start)
+	return e, best
 }
 
 // reFind returns the leftmost-first match at or after from: [start,end] or nil.
@@ -226,6 +250,77 @@ func (p *Path) reFindAll(prog *syntax.Prog, s []Value, n int) [][]int {
 		}
 	}
 	return out
+}
+
+// reReplaceAll: non-overlapping matches replaced by the template ($N / ${N} expand to captures).
+func (p *Path) reReplaceAll(prog *syntax.Prog, s []Value, repl string) []Value {
+	var out []Value
+	last := 0
+	pos := 0
+	prevEnd := -1
+	for pos <= len(s) {
+		var m []int
+		var caps []int
+		for st := pos; st <= len(s); st++ {
+			if e, c := p.reMatchCaps(prog, s, st); e >= 0 {
+				m, caps = []int{st, e}, c
+				break
+			}
+		}
+		if m == nil {
+			break
+		}
+		if m[1] == m[0] && m[0] == prevEnd {
+			// empty match adjacent to the previous match: skip
+			pos = m[1] + 1
+			continue
+		}
+		out = append(out, s[last:m[0]]...)
+		for i := 0; i < len(repl); i++ {
+			if repl[i] == '$' && i+1 < len(repl) {
+				j := i + 1
+				brace := repl[j] == '{'
+				if brace {
+					j++
+				}
+				k := j
+				for k < len(repl) && repl[k] >= '0' && repl[k] <= '9' {
+					k++
+				}
+				if k > j && (!brace || (k < len(repl) && repl[k] == '}')) {
+					n := 0
+					for _, d := range repl[j:k] {
+						n = n*10 + int(d-'0')
+					}
+					if 2*n+1 < len(caps) && caps[2*n] >= 0 && caps[2*n+1] >= 0 {
+						out = append(out, s[caps[2*n]:caps[2*n+1]]...)
+					} else if n == 0 {
+						out = append(out, s[m[0]:m[1]]...)
+					}
+					i = k - 1
+					if brace {
+						i = k
+					}
+					continue
+				}
+				if repl[j] == '$' {
+					out = append(out, int64('$'))
+					i = j
+					continue
+				}
+				panic(unsupported("regexp replacement template %q", repl))
+			}
+			out = append(out, int64(repl[i]))
+		}
+		last = m[1]
+		prevEnd = m[1]
+		if m[1] > m[0] {
+			pos = m[1]
+		} else {
+			pos = m[1] + 1
+		}
+	}
+	return append(out, s[last:]...)
 }
 
 func nativeRegexp(v Value) *regexp.Regexp {
@@ -319,20 +414,19 @@ func init() {
 	})
 	sym("(*regexp.Regexp).ReplaceAllString", func(p *Path, re *regexp.Regexp, prog *syntax.Prog, a []Value) Value {
 		repl := concreteString(a[2], "ReplaceAllString replacement")
-		for i := 0; i < len(repl); i++ {
-			if repl[i] == '$' {
-				panic(unsupported("ReplaceAllString with $-expansion on a symbolic subject"))
+		return mkStr(p.reReplaceAll(prog, subjectBytes(a[1]), repl))
+	})
+	sym("(*regexp.Regexp).ReplaceAll", func(p *Path, re *regexp.Regexp, prog *syntax.Prog, a []Value) Value {
+		rs := a[2].(Slice)
+		rb := make([]byte, len(rs.A))
+		for i, x := range rs.A {
+			c, ok := x.(int64)
+			if !ok {
+				panic(unsupported("ReplaceAll with a symbolic replacement"))
 			}
+			rb[i] = byte(c)
 		}
-		s := subjectBytes(a[1])
-		var out []Value
-		last := 0
-		for _, m := range p.reFindAll(prog, s, -1) {
-			out = append(out, s[last:m[0]]...)
-			out = append(out, strBytes(repl)...)
-			last = m[1]
-		}
-		out = append(out, s[last:]...)
-		return mkStr(out)
+		out := p.reReplaceAll(prog, subjectBytes(a[1]), string(rb))
+		return Slice{A: out}
 	})
 }
